@@ -184,6 +184,25 @@ fn helper_check(text: &str, width: usize) -> Option<String> {
             vsim::util::excerpt(&want.as_bytes()[d.min(want.len())..], 40)
         ));
     }
+    // ... and once more on its own result, as a playground does when the user presses "format"
+    // twice: the second answer has to be the library's answer for *that* text (which is not
+    // always the same text again: one pass is not a fixed point on every document)
+    let want2 = match vsim::oracle::fmt_uncached(&got, cfg) {
+        vsim::oracle::Fmt::Ok(s) => s,
+        vsim::oracle::Fmt::Erroneous => got.clone(),
+        vsim::oracle::Fmt::Panic => return None,
+    };
+    let got2 = std::panic::catch_unwind(|| typstyle_core::format_with_width(&got, width)).ok()?;
+    if got2 != want2 {
+        let d = vsim::util::first_diff(got2.as_bytes(), want2.as_bytes());
+        return Some(format!(
+            "format_with_width applied to its own result (width {}) differs from the library result for that text: first difference at byte {} (have {:?}, want {:?})",
+            width,
+            d,
+            vsim::util::excerpt(&got2.as_bytes()[d.min(got2.len())..], 40),
+            vsim::util::excerpt(&want2.as_bytes()[d.min(want2.len())..], 40)
+        ));
+    }
     None
 }
 
